@@ -35,8 +35,37 @@ var atomic64 = map[string]bool{
 	"AndInt64": true, "AndUint64": true, "OrInt64": true, "OrUint64": true,
 }
 
+var platformPkgs = map[string][]string{
+	"C01": {"knx/cemi", "knx/knxnet", "knx/util"},
+	"C02": {"knx/cemi", "knx/knxnet", "knx/util"},
+	"C11": {"knx/cemi"},
+	"C15": {"knx/cemi", "knx/knxnet", "knx/util"},
+	"C18": {"knx/cemi"},
+	"C06": {"knx/dpt"},
+	"C07": {"knx/dpt"},
+	"C08": {"knx/dpt"},
+	"C19": {"knx/dpt"},
+}
+
 func runPlatform(c *Check, p *Program) {
-	names := c.analysed["functions"]
+	// scope: every function the check recorded as analysed (whatever the
+	// category) and, for the codec properties, every function of the codec
+	// packages - their obligations range over all types of the package
+	names := map[string]bool{}
+	for _, m := range c.analysed {
+		for n := range m {
+			names[n] = true
+		}
+	}
+	for _, rel := range platformPkgs[c.Prop] {
+		if sp := p.SSAPkg[modPath+"/"+rel]; sp != nil {
+			for _, f := range p.AllFuncs {
+				if f.Pkg == sp {
+					names[FuncName(f)] = true
+				}
+			}
+		}
+	}
 	if len(names) == 0 {
 		return
 	}
@@ -161,4 +190,48 @@ func offset386(v ssa.Value, sizes types.Sizes) (int64, string, bool) {
 		}
 	}
 	return 0, "", false
+}
+
+// isSyncAtomic reports whether fn is a function or method of sync/atomic.
+func isSyncAtomic(fn *types.Func) bool {
+	return fn != nil && fn.Pkg() != nil && fn.Pkg().Path() == "sync/atomic"
+}
+
+// onlyAtomicUses: the value (an address, or a pointer to a struct of counters)
+// is used for nothing but sync/atomic operations on the words it leads to:
+// such words are shared between goroutines by design and every access is
+// atomic, so they carry no state that concurrent callers could tear.
+func onlyAtomicUses(v ssa.Value, depth int) bool {
+	if depth > 6 {
+		return false
+	}
+	refs := v.Referrers()
+	if refs == nil {
+		return false
+	}
+	n := 0
+	for _, r := range *refs {
+		switch x := r.(type) {
+		case *ssa.DebugRef:
+		case *ssa.FieldAddr:
+			if x.X != v || !onlyAtomicUses(x, depth+1) {
+				return false
+			}
+			n++
+		case *ssa.IndexAddr:
+			if x.X != v || !onlyAtomicUses(x, depth+1) {
+				return false
+			}
+			n++
+		case ssa.CallInstruction:
+			args := x.Common().Args
+			if x.Common().IsInvoke() || !isSyncAtomic(calleeObj(x)) || len(args) == 0 || args[0] != v {
+				return false
+			}
+			n++
+		default:
+			return false
+		}
+	}
+	return n > 0
 }
